@@ -379,6 +379,10 @@ func donor(g *RNG, idx []string) *donorParts {
 
 var synthBase = time.Date(2010, 1, 1, 0, 0, 0, 0, time.UTC)
 
+// synthForceGenTime makes synthetic objects write their own dates as GeneralizedTime (set around a draw by
+// generators that want to move the object to a date UTCTime cannot express).
+var synthForceGenTime bool
+
 // synthOddInstant: now and then an object's own date is an unusual one - centuries away (before 1678 and
 // after 2262 an instant no longer fits a 64-bit count of nanoseconds), the epoch, or within days of a
 // daylight-saving change of some zone (where "ten days later" is a different instant in local calendar
@@ -491,8 +495,12 @@ func synthCert(g *RNG, idx []string) *ObjSpec {
 		}
 		if g.Chance(0.03) {
 			// a name of several thousand bytes (whatever quotes it in its findings says a lot)
-			giant := strings.TrimSuffix(strings.Repeat(strings.Repeat(pick(g, []string{"a", "x", "0"}), 61)+".", g.Range(60, 200)), ".") + pick(g, []string{".onion", ".example.com", ".invalidtld"})
-			hosts = append([]string{giant}, hosts...)
+			giant := strings.TrimSuffix(strings.Repeat(strings.Repeat(pick(g, []string{"a", "x", "0"}), 61)+".", g.Range(90, 240)), ".") + pick(g, []string{".onion", ".onion", ".example.com", ".invalidtld"})
+			hosts = []string{giant} // the subject's common name, if it has one, is such a name too
+			if g.Chance(0.5) {
+				// a second one (what two findings say together is more than either says alone)
+				hosts = append(hosts, strings.Replace(giant, giant[:61], strings.Repeat("b", 61), -1))
+			}
 		}
 		if g.Chance(0.12) {
 			// an onion-service certificate with several services
@@ -787,7 +795,7 @@ func synthCert(g *RNG, idx []string) *ObjSpec {
 			spki = weakSPKI(g)
 		}
 		parts := [][]byte{ctxCons(0, dint(big.NewInt(2))), dint(serial), d.sigAlg, issuer,
-			dseq(dtime(nb, g.Chance(0.05)), dtime(na, g.Chance(0.05))), subject, spki}
+			dseq(dtime(nb, g.Chance(0.05) || synthForceGenTime), dtime(na, g.Chance(0.05) || synthForceGenTime)), subject, spki}
 		if len(exts) > 0 {
 			parts = append(parts, ctxCons(3, dseq(exts...)))
 		}
@@ -807,7 +815,7 @@ func synthCRL(g *RNG, idx []string) *ObjSpec {
 	}
 	for tries := 0; tries < 8; tries++ {
 		this := synthOddInstant(g, synthBase.Add(time.Duration(g.Intn(17*365*24))*time.Hour))
-		parts := [][]byte{dint(big.NewInt(1)), d.sigAlg, d.issuer, dtime(this, g.Chance(0.05))}
+		parts := [][]byte{dint(big.NewInt(1)), d.sigAlg, d.issuer, dtime(this, g.Chance(0.05) || synthForceGenTime)}
 		if g.Chance(0.85) {
 			parts = append(parts, dtime(this.Add(time.Duration(pick(g, []int{1, 7, 10, 30, 200, 366, 400}))*24*time.Hour), g.Chance(0.05)))
 		}
